@@ -4,6 +4,7 @@
    bit 0 = the real component differs from the model; bit 1 = the component's output is not an
    instance of the abstract rule (PaxosModel.pick_ok / distinct slots).  Definitions only. *)
 From Coq Require Export List NArith Bool.
+From HV Require Proto.QuorumModel.
 Export ListNotations.
 Open Scope N_scope.
 
@@ -286,6 +287,68 @@ Fixpoint dec_obl (f : N) (oks : list (N * N)) (ticks : list (list (N * N) * list
       dec_obl f oks' t
   end.
 Definition chk_dec (f : N) (ticks : list (list (N * N) * list N)) : N := bit (dec_obl f [] ticks) 2.
+
+(* ------------------------------------------------------------------------------------------
+   The PROPOSER node's leader decision (p_ballot_calc + p_p1b as wired by leader_election), one step
+   per tick, all effects in the same tick:
+     received max ballot := max over heartbeat ballots and the ballots carried by Err p1b replies;
+     ballot number       := (received max).num + 1 if (num, self) < received max;
+     p1b quorum          := collect_quorum_with_response(f+1, 2f+1) keyed by ballot (hydro_std::quorum,
+                            model QuorumModel, shared with C39): a ballot is "reached" when f+1 Ok
+                            REPLIES for it are held (the sender is dropped before the count);
+     is_leader           := (largest reached ballot = own current ballot)
+   (has_largest_ballot is implied after the ballot update).  Not modelled: timers (when p1a and
+   heartbeats are sent), p2b Err ballots. *)
+Definition benc (b : ballot) : N := fst b * 4294967296 + snd b + 1.
+
+Record est := mkE { e_recv : option ballot; e_num : N; e_q : QuorumModel.qstate; e_reached : list N }.
+Definition e_init : est := mkE None 0 QuorumModel.q_init [].
+
+(* p1b reply as seen by the leader decision: (ballot, None = Ok | Some e = Err e) *)
+Definition p1bin := (ballot * option (option ballot))%type.
+
+Definition e_step (f me : N) (st : est) (hbs : list ballot) (p1bs : list p1bin) : est * bool * ballot :=
+  let errs := flat_map (fun (r : p1bin) => match snd r with Some (Some b) => [b] | _ => [] end) p1bs ++ hbs in
+  let recv := fold_left (fun m b => ob_max m (Some b)) errs (e_recv st) in
+  let num := match recv with
+             | Some r => if b_lt (e_num st, me) r then fst r + 1 else e_num st
+             | None => e_num st
+             end in
+  let batch := map (fun (r : p1bin) => (benc (fst r), match snd r with None => QuorumModel.ROk 0 | Some _ => QuorumModel.RErr 0 end)) p1bs in
+  let cur := QuorumModel.not_all (e_q st) ++ batch in
+  let reached := QuorumModel.reached (N.to_nat (f + 1)) cur ++ e_reached st in
+  let q := QuorumModel.q_next (N.to_nat (f + 1)) (N.to_nat (2 * f + 1)) (e_q st) batch in
+  let mxq := fold_left N.max reached 0 in
+  (mkE recv num q reached, mxq =? benc (num, me), (num, me)).
+
+Fixpoint e_run (f me : N) (st : est) (ticks : list (list ballot * list p1bin)) : list (bool * ballot) :=
+  match ticks with
+  | [] => []
+  | (hb, p1) :: t => let '(st', ld, b) := e_step f me st hb p1 in (ld, b) :: e_run f me st' t
+  end.
+
+(* obligation on the implementation: it may lead with ballot b only when f+1 DISTINCT acceptors
+   answered Ok for b (per tick: the (acceptor, ballot) Ok replies fed, leader?, ballot) *)
+Fixpoint elect_obl (f : N) (oks : list (N * ballot)) (ticks : list (list (N * ballot) * bool * ballot)) : bool :=
+  match ticks with
+  | [] => true
+  | (ok, ld, b) :: t =>
+      let oks' := ok ++ oks in
+      (negb ld || (f <? N.of_nat (length (dedup (map fst (filter (fun p => b_eqb (snd p) b) oks')))))) &&
+      elect_obl f oks' t
+  end.
+
+(* ticks: (heartbeats, p1b inputs with sender); impl: per tick (leader?, ballot if leader) *)
+Definition chk_elect (f me : N) (pre : list (list ballot * list p1bin))
+           (ticks : list (list ballot * list (N * p1bin))) (impl : list (bool * ballot)) : N :=
+  let st0 := fold_left (fun st (t : list ballot * list p1bin) => fst (fst (e_step f me st (fst t) (snd t)))) pre e_init in
+  let model := e_run f me st0 (map (fun t => (fst t, map snd (snd t))) ticks) in
+  bor (bit (Nat.eqb (length impl) (length model) &&
+            forallb (fun p => Bool.eqb (fst (fst p)) (fst (snd p)) &&
+                              (negb (fst (fst p)) || b_eqb (snd (fst p)) (snd (snd p)))) (combine impl model)) 1)
+      (bit (elect_obl f []
+              (map (fun p => (flat_map (fun (r : N * p1bin) => match snd (snd r) with None => [(fst r, fst (snd r))] | Some _ => [] end) (snd (fst p)),
+                              fst (snd p), snd (snd p))) (combine ticks impl))) 2).
 
 Definition bad (vs : list N) : list (N * N) :=
   filter (fun p => negb (snd p =? 0)) (combine (map N.of_nat (seq 0 (length vs))) vs).
